@@ -384,6 +384,9 @@ def r3(chk):
                 acc_ded.add((resid, val))
         okd = sorted(str(r) for r, v in acc_def if v)
         oke = sorted(str(r) for r, v in acc_ded if v)
+        if not bad and not okd and not oke:
+            chk.inconc("R3", f"{key}: predicate closure not decidable from its text (helper calls) and not evaluable on abstract vectors ({sd})")
+            continue
         chk.expect("R3", key, not bad and okd == oke and bool(okd), ATTR, fi.line, "parent predicate must hold exactly for default-or-dedicated-to-this-type", found={"bad": bad, "default": okd, "dedicated": oke})
 
 
